@@ -139,6 +139,9 @@ func cmdCSem(c *ctx) {
 		c.line("cases.txt", line)
 		c.line("src.txt", q(m.wgsl()))
 		c.line("text.txt", q(text))
+		if hasSwzOfCompound(m) {
+			tag += " swzcomp"
+		}
 		c.line("tags.txt", knob+" "+tag)
 		if c.stats["shrunk"] < 10 {
 			if d == nil {
@@ -190,6 +193,9 @@ func init() { commands["csem"] = cmdCSem }
 func cKnobs(c *ctx, dialect string, i int, o *wgenOpts, knob *string) {
 	o.noSDot, o.noAbsI, o.noDynPtr, o.noFlbU = true, true, true, true
 	o.safeDiv = dialect == "glsl"
+	o.scalarSel = dialect != "msl"
+	o.multiSwz = dialect != "msl" // C04 finding: MSL writes `a + b.yx` for `(a + b).yx`
+	o.contLet = false
 	o.fround = dialect == "hlsl" // HLSL round: halfway cases to the nearest even, as WGSL
 	o.noValIdx = dialect == "msl"
 	o.noPreLet = dialect == "msl"
@@ -209,6 +215,10 @@ func cKnobs(c *ctx, dialect string, i int, o *wgenOpts, knob *string) {
 			o.noFlbU = false
 		case "fround":
 			o.fround, o.froundBoost, o.floats = true, true, true
+		case "contLet":
+			o.contLet, o.contLetBoost = true, true
+		case "selSwz":
+			o.scalarSel, o.selSwzBoost, o.multiSwz = true, true, true
 		case "rawDiv":
 			o.safeDiv = false
 		case "rawShift":
@@ -230,9 +240,9 @@ func cKnobs(c *ctx, dialect string, i int, o *wgenOpts, knob *string) {
 }
 
 var cRisky = map[string][]string{
-	"hlsl": {"sdot", "absI", "privInit", "vecInit", "constInit", "fround"},
-	"msl":  {"sdot", "dynPtr", "flbU", "privInit", "vecInit", "constInit", "negInit", "valIdx", "preLet", "fround"},
-	"glsl": {"rawDiv", "rawShift", "privInit", "vecInit", "constInit", "negInit", "fround"},
+	"hlsl": {"sdot", "absI", "privInit", "vecInit", "constInit", "fround", "contLet"},
+	"msl":  {"sdot", "dynPtr", "flbU", "privInit", "vecInit", "constInit", "negInit", "valIdx", "preLet", "fround", "contLet", "selSwz"},
+	"glsl": {"rawDiv", "rawShift", "privInit", "vecInit", "constInit", "negInit", "fround", "contLet"},
 }
 
 // emitCFixed re-emits with the options encoded in a tag produced by emitC.
